@@ -84,3 +84,10 @@ Theorem C05_scan_delimiter_in_range : forall pr sr isd line before minimum co cc
   1 <= len <= zlen line /\ minimum <= len /\ isd ch = true.
 Proof. exact scan_delimiter_in_range. Qed.
 Print Assumptions C05_scan_delimiter_in_range.
+
+(* the parser model with its output checked (model/ParseChecked.v): a tree it yields is well
+   formed; compared with goldmark's tree on every run (case kind ParseTree / Convert) *)
+Require Import GM.model.Html GM.model.HtmlSpec GM.model.ParseI GM.model.ParseChecked GM.proofs.ParseCheckedProofs.
+Theorem C05_checked_parser_output_wf : forall src t, ParseTreeC src = Ok t -> ParseTree src = Ok t /\ wf_tree src t = true.
+Proof. exact ParseTreeC_ok. Qed.
+Print Assumptions C05_checked_parser_output_wf.
